@@ -89,7 +89,9 @@ func Concretize(e *Edge, n int) Concrete {
 			k.Setup = func(be *rec.Backend) { be.MailErrs = []error{errors.New("sender refused")} }
 		case "rej5":
 			line(base)
-			k.Setup = func(be *rec.Backend) { be.MailErrs = []error{&smtp.SMTPError{Code: 550, Message: "sender refused for good"}} }
+			k.Setup = func(be *rec.Backend) {
+				be.MailErrs = []error{&smtp.SMTPError{Code: 550, Message: "sender refused for good"}}
+			}
 		case "panic":
 			line(base)
 			k.Setup = func(be *rec.Backend) { be.PanicIn = "Mail" }
@@ -217,6 +219,8 @@ func Concretize(e *Edge, n int) Concrete {
 				plan.Err = fmt.Errorf("verdict-%d", n)
 			case "panic":
 				plan.Panic = true
+			case "eacc":
+				plan.ReadMode = rec.ReadNone // returns nil at once
 			}
 			k.Setup = func(be *rec.Backend) { be.DataPlans = []rec.DataPlan{plan} }
 		}
@@ -266,6 +270,9 @@ func Concretize(e *Edge, n int) Concrete {
 					plan.Panic = true
 				case "eacc":
 					plan.ReadMode = rec.ReadNone // returns nil at once
+				case "eacc1", "eacc4":
+					plan.ReadMode = rec.ReadK // returns nil after 1 / 4 octets
+					plan.K = map[string]int{"eacc1": 1, "eacc4": 4}[c.P]
 				case "mid1", "mid4":
 					plan.ReadMode = rec.ReadK
 					plan.K = map[string]int{"mid1": 1, "mid4": 4}[c.P]
@@ -707,6 +714,11 @@ func (cv *Conv) Exec(e *Edge) (divs []evid.Div, fatal error) {
 		if prop != "C04" && len(rs) != len(exp) {
 			// whatever else it is, the NUMBER of replies is C04's ("exactly one reply per command ... until it closes")
 			divs = append(divs, evid.Div{Prop: "C04", Key: fmt.Sprintf("reply-count:%s:%s", e.Lbl.Cmd.String(), srcClass(e)),
+				Msg: fmt.Sprintf("%s: expected %d replies %v, got %d: %v", ctx, len(exp), exp, len(rs), st.Replies), Replay: rp()})
+		}
+		if prop != "C05" && strings.HasPrefix(e.Lbl.Cmd.C, "BDAT") && len(rs) != len(exp) && !(e.Cfg.Lmtp && e.Lbl.Cmd.L) {
+			// "each BDAT command gets exactly one reply" is C05's clause as well
+			divs = append(divs, evid.Div{Prop: "C05", Key: fmt.Sprintf("bdat-reply-count:%s:%s", e.Lbl.Cmd.String(), srcClass(e)),
 				Msg: fmt.Sprintf("%s: expected %d replies %v, got %d: %v", ctx, len(exp), exp, len(rs), st.Replies), Replay: rp()})
 		}
 		if cc := e.Lbl.Cmd.C; prop != "C07" && (strings.HasPrefix(cc, "BDAT") || strings.HasPrefix(cc, "DATA")) {
